@@ -628,10 +628,13 @@ Definition ll_max : N := 268435456.   (* 256 MiB *)
 Definition uvlen (x : N) : N := flen (uvarint x).
 
 (* [g] = the record is read whole, its length prefix parsed from the record and checked against [size]
-   (fixes/C06-prefix-width.diff). [dec] = whether the zstd payload decodes (abstract). *)
-Definition ll_read (g : bool) (file : list N) (offset size : N) (dec : list N -> bool) : ores unit * N :=
+   (fixes/C06-prefix-width.diff); [gb] = the record must lie inside the file before anything is allocated
+   (fixes/C12-linkedlog-size.diff). [dec] = whether the zstd payload decodes (abstract). *)
+Definition ll_read (g gb : bool) (file : list N) (offset size : N) (dec : list N -> bool) : ores unit * N :=
   if ll_max <? size then (OErr, 0)
   else if g then
+    if gb && ((flen file <? offset) || (flen file - offset <? size)) then (OErr, 0)
+    else
     match read_n file offset size with
     | None => (OErr, size)
     | Some record =>
@@ -656,20 +659,24 @@ Definition ll_read (g : bool) (file : list N) (offset size : N) (dec : list N ->
       end.
 
 Theorem ll_read_total : forall file offset size dec,
-  (forall s, fst (ll_read true file offset size dec) <> OPanic s) /\ snd (ll_read true file offset size dec) <= ll_max.
+  (forall s, fst (ll_read true true file offset size dec) <> OPanic s) /\
+  snd (ll_read true true file offset size dec) <= N.min ll_max (flen file).
 Proof.
   intros file offset size dec. unfold ll_read. destruct (ll_max <? size) eqn:E; [split; [discriminate|cbn; lia]|].
-  apply N.ltb_ge in E.
-  destruct (read_n file offset size); [|split; [discriminate|cbn; lia]].
-  destruct (uvarint_dec l) as [[plen w]|]; [|split; [discriminate|cbn; lia]].
-  destruct (negb _); [split; [discriminate|cbn; lia]|].
-  destruct (plen <? 9); [split; [discriminate|cbn; lia]|].
+  apply N.ltb_ge in E. cbn [andb].
+  destruct ((flen file <? offset) || (flen file - offset <? size)) eqn:Eb; [split; [discriminate|cbn; lia]|].
+  apply orb_false_elim in Eb. destruct Eb as [E1 E2]. apply N.ltb_ge in E1. apply N.ltb_ge in E2.
+  destruct (read_n file offset size); [|split; [discriminate|cbn [snd]; lia]].
+  destruct (uvarint_dec l) as [[plen w]|]; [|split; [discriminate|cbn [snd]; lia]].
+  destruct (negb _); [split; [discriminate|cbn [snd]; lia]|].
+  destruct (plen <? 9); [split; [discriminate|cbn [snd]; lia]|].
   destruct (dec _); cbn [fst snd]; (split; [discriminate|lia]).
 Qed.
 Lemma ll_refuted : forall dec,
-  fst (ll_read false [5; 1; 2; 3; 4; 5] 0 0 dec) = OPanic site_ll_makeslice /\
-  fst (ll_read false [5; 1; 2; 3; 4; 5] 0 6 dec) = OPanic site_ll_slice /\
-  fst (ll_read true [5; 1; 2; 3; 4; 5] 0 0 dec) = OErr /\ fst (ll_read true [5; 1; 2; 3; 4; 5] 0 6 dec) = OErr.
+  fst (ll_read false false [5; 1; 2; 3; 4; 5] 0 0 dec) = OPanic site_ll_makeslice /\
+  fst (ll_read false false [5; 1; 2; 3; 4; 5] 0 6 dec) = OPanic site_ll_slice /\
+  fst (ll_read true true [5; 1; 2; 3; 4; 5] 0 0 dec) = OErr /\ fst (ll_read true true [5; 1; 2; 3; 4; 5] 0 6 dec) = OErr /\
+  snd (ll_read true false [5; 1; 2; 3; 4; 5] 0 ll_max dec) = ll_max /\ snd (ll_read true true [5; 1; 2; 3; 4; 5] 0 ll_max dec) = 0.
 Proof. intros dec. vm_compute. repeat split; reflexivity. Qed.
 
 (* ------------------------------------------------------------------ kind dispatch and the GetBlock transaction loop *)
